@@ -7,7 +7,8 @@
    result (pos, assoc) is an input of the table; what the library does with
    it - use it or fall back to the linear scan, build remap, look a message
    up - is modelled.  The model follows the repaired code (fix: commits for
-   D3, D20, D23); the pinned functions live in DispatchRegress.v.
+   D3, D20, D23, the unsigned 256-entry letter table, the default handler on
+   every path); the pinned functions live in DispatchRegress.v.
    No proofs in this file. *)
 From Coq Require Import List ZArith Bool.
 From RtoscV Require Import Match.PatSpec Match.MatchModel.
@@ -49,7 +50,10 @@ Fixpoint inner_slash (name : str) : bool :=
   | c :: t => if c =? 47 then negb ((hd0 t =? 0) || (hd0 t =? 58)) else inner_slash t
   end.
 
-(* assoc[c]; None = index outside the vector (the code would read outside) *)
+(* assoc[(unsigned char)c]: a byte of the string is 0..255 here, which is what
+   the cast yields (fix: "the perfect-hash letter table was indexed with a plain
+   char"; find_assoc makes 256 entries).  None = index outside the vector (the
+   code would read outside); the old indexing is DispatchRegress.assoc_at_old *)
 Definition assoc_at (assoc : list Z) (c : Z) : option Z :=
   if c <? 0 then None else nth_error assoc (Z.to_nat c).
 
@@ -226,6 +230,15 @@ Definition hard_match (name : str) (m args : str) : bool :=
 
 Definition call_default (dh : str -> dstate -> dstate) (m : str) (obj0 : Z) (st : dstate) : dstate :=
   set_obj (dh m (inc_matches st)) obj0.
+(* without location buffer nothing counts matches *)
+Definition call_default_noloc (dh : str -> dstate -> dstate) (m : str) (obj0 : Z) (st : dstate) : dstate :=
+  set_obj (dh m st) obj0.
+
+(* the flag `hit` of the two loops: it is set exactly when rtosc_match returned
+   true for some port of the table (message and table do not change while the
+   callbacks run, so the flag after the loop is this disjunction) *)
+Definition any_match (ports : list (str * bool)) (m args : str) : bool :=
+  existsb (fun p => match rtosc_match (fst p) m args with Some (true, _) => true | _ => false end) ports.
 
 (* hashed lookup with location buffer *)
 Definition lookup_loc (cb : callback) (dh : str -> dstate -> dstate) (T : table) (H : hashtab)
@@ -270,12 +283,21 @@ Definition dispatch_table (cb : callback) (dh : str -> dstate -> dstate) (T : ta
              else st in
   let m1 := if base then match m with c :: t => if c =? 47 then t else m | [] => m end else m in
   match loc st1 with
-  | None => scan_noloc cb (t_id T) (t_ports T) 0 m1 args obj0 st1
+  | None =>
+      let st' := scan_noloc cb (t_id T) (t_ports T) 0 m1 args obj0 st1 in
+      (* fix "a table's default handler ... ran only when the table had a perfect hash":
+         if(!hit && default_handler) default_handler(m,d), d.obj = obj; *)
+      if any_match (t_ports T) m1 args then st'
+      else if t_dflt T then call_default_noloc dh m1 obj0 st' else st'
   | Some l0 =>
       let l := match l0 with [] => [47] | _ => l0 end in
       let st2 := set_loc st1 (Some l) in
       match tables_of T with
-      | None => scan_loc cb (t_id T) (t_ports T) 0 m1 args obj0 l st2
+      | None =>
+          let st' := scan_loc cb (t_id T) (t_ports T) 0 m1 args obj0 l st2 in
+          (* same fix: if(!hit && default_handler) { d.matches++; default_handler(m,d), d.obj = obj; } *)
+          if any_match (t_ports T) m1 args then st'
+          else if t_dflt T then call_default dh m1 obj0 st' else st'
       | Some H => lookup_loc cb dh T H m1 args obj0 l st2
       end
   end.
